@@ -377,6 +377,9 @@ func initTopicP2P(t *Topic, sreg *ClientComMessage) error {
 				users[u2].Access.Anon,
 				users[u2].Access.Auth,
 				types.ModeCP2P)
+			// Sanity check, same as for user2's ModeGiven above: the default access of an account may hold
+			// permissions which make no sense in a P2P topic (the default Auth includes 'S').
+			userData.modeGiven = userData.modeGiven&types.ModeCP2P | types.ModeApprove
 
 			// By default assign the same mode that user1 gave to user2 (could be changed below)
 			userData.modeWant = sub2.ModeGiven
